@@ -189,9 +189,11 @@ pub fn make_ctx(rng: &mut Rng, prof: &Profile, pk8: &[u8], pub_b64: &str, pub2_b
     let key = match km {
         KeyMode::None => None,
         KeyMode::Valid => Some(pub_b64.to_string()),
-        KeyMode::Bad => Some(match rng.below(3) {
+        KeyMode::Bad => Some(match rng.below(5) {
             0 => "bad_public_key".to_string(),
             1 => "AAAA".to_string(),
+            2 => "".to_string(),                      // a key that is present but blank is still a key nothing verifies under
+            3 => "  ".to_string(),
             _ => pub_b64[..40].to_string(),
         }),
     };
@@ -420,7 +422,7 @@ pub fn gen_damage(rng: &mut Rng, ctx: &Ctx, runner: &Runner) -> Op {
         13 => Damage::SjGarbage(rng.below(GARBAGE_VARIANTS.len())),
         _ => {
             let oks: Vec<usize> = (0..runner.sj_ok.len()).filter(|&k| runner.sj_ok[k]).collect();
-            if oks.is_empty() { Damage::Nop } else { Damage::SjStale(*rng.pick(&oks)) }
+            if oks.is_empty() { Damage::Nop } else if rng.chance(35) { Damage::SjFuture(*rng.pick(&oks)) } else { Damage::SjStale(*rng.pick(&oks)) }
         }
     };
     Op::Dmg(d)
